@@ -21,6 +21,9 @@ CLAIMS = {
  "C10": dict(cat="proof", tech="machine-checked proof in Coq (reset = new, stale-content independence) + differential histories against fresh objects",
    text="Kernel-checked: RegisterAllocator::reset and VmWorkspace::reset yield exactly the freshly constructed state from any prior state; evaluation results are independent of stale output-vector contents when every output index is written, and a validated register tape evaluated with arbitrary stale slots equals its SSA tape evaluated fresh (all value types / semantics). Random histories over long-lived evaluators, recycled function storage, recycled tape storage (JIT Mmap) and a reused workspace are compared step by step with fresh-object twins on interpreter (N=4, 255) and JIT.",
    ref="DESIGN.md §5 C10", note="Executable-page reuse inside Mmap is exercised by the histories but not modelled."),
+ "C15": dict(cat="proof", tech="machine-checked proof in Coq (verified lockstep equivalence checker on the decoded bytecode, decoder facts) + model/implementation correspondence",
+   text="Kernel-checked: if Equiv.check_equiv accepts (register tape, tape decoded from the words by a decoder written from the format documentation only) then both compute the same outputs for every value type, semantics, input and initial register/memory contents; any stream the decoder accepts carries the documented marker words with two words per op; the bounds check implies every register index < reg_count and != 255 and every memory index < mem_count. The checks run on every word stream Bytecode::new emits; Bytecode::new incl. repack_map is also modelled and compared word-for-word; a Rust documentation-only interpreter is compared with the VM on the same inputs.",
+   ref="DESIGN.md §5 C15"),
 }
 
 def main():
